@@ -93,7 +93,8 @@ def _is_log(s):
 
 
 def _u(n):
-    return ast.unparse(n).replace(" ", "")
+    """source of a node with all blanks removed; nested lines joined with `;`"""
+    return ";".join(x.strip() for x in ast.unparse(n).split("\n")).replace(" ", "")
 
 
 def _is_drop(stmts):
@@ -212,7 +213,7 @@ def _store_peer_request(cls):
             break
         i += 1
     tail = [_u(s) for s in body[i:]]
-    want = ["ifnodenotinself.store[payload.target]:", "self.ez_send(node,StorePeerResponsePayload(payload.identifier))"]
+    want = ["ifnodenotinself.store[payload.target]:;", "self.ez_send(node,StorePeerResponsePayload(payload.identifier))"]
     if len(tail) != 2 or not tail[0].startswith(want[0]) or "self.store[payload.target].append(node)" not in tail[0] \
             or tail[1] != want[1]:
         raise TranslatorError("on_store_peer_request: tail (append node once, answer) was not recognised")
@@ -269,7 +270,7 @@ def _init(cls):
     if not tm or _u(tm[0]) != "self.token_secrets.append(os.urandom(16))":
         raise TranslatorError("token_maintenance does not start by appending os.urandom(16) to token_secrets")
     vm = _body(_fn(cls, "value_maintenance", COMMUNITY))
-    if len(vm) != 1 or _u(vm[0]) != "forstorageinself.storages.values():storage.clean()":
+    if len(vm) != 1 or _u(vm[0]) != "forstorageinself.storages.values():;storage.clean()":
         raise TranslatorError("value_maintenance is not `for storage in self.storages.values(): storage.clean()`")
     return maxlen, intervals
 
@@ -284,18 +285,16 @@ def _unserialize(cls):
         raise TranslatorError("unserialize_value: entry kind tests changed")
     b0 = [_u(s) for s in body[0].body]
     if b0 != ["strpayload,_=self.serializer.unpack_serializable(StrPayload,value,offset=1)",
-              "returnstrpayload.data,None,0"]:
+              "return(strpayload.data,None,0)"]:
         raise TranslatorError("unserialize_value: unsigned branch changed")
     b1 = [_u(s) for s in body[1].body]
     want = ["payload,_=self.serializer.unpack_serializable(SignedStrPayload,value,offset=1)",
             "public_key=self.crypto.key_from_public_bin(payload.public_key)",
             "sig_len=self.crypto.get_signature_length(public_key)",
             "sig=value[-sig_len:]",
-            "ifself.crypto.is_valid_signature(public_key,value[:-sig_len],sig):"
-            "returnpayload.data,payload.public_key,payload.version"]
-    got = b1[:4] + ["".join(x.split("\n")) for x in b1[4:]]
-    got = [g.replace("\n", "") for g in got]
-    if got != want or body[1].body[4].orelse:
+            "ifself.crypto.is_valid_signature(public_key,value[:-sig_len],sig):;"
+            "return(payload.data,payload.public_key,payload.version)"]
+    if b1 != want or body[1].body[4].orelse:
         raise TranslatorError("unserialize_value: signed branch is not `return (data, public_key, version) only if "
                               "is_valid_signature(public_key, value[:-sig_len], value[-sig_len:])`")
     return True
@@ -353,16 +352,14 @@ def _storage():
         raise TranslatorError("Storage.put: version comparison has an else branch")
     # clean: reverse scan, pop expired, optional break
     clean = _body(_fn(sto, "clean", STORAGE))
-    src = _u(clean[0]) if len(clean) == 1 else ""
-    head = "forkeyinself.items:\nforindex,valueinreversed(list(enumerate(self.items[key]))):\nifvalue.expired:\nself.items[key].pop(index)"
-    flat = "\n".join(x.strip() for x in ast.unparse(clean[0]).split("\n")).replace(" ", "") if len(clean) == 1 else ""
+    head = "forkeyinself.items:;forindex,valueinreversed(list(enumerate(self.items[key]))):;ifvalue.expired:;self.items[key].pop(index)"
+    flat = _u(clean[0]) if len(clean) == 1 else ""
     if flat == head:
         stops = "false"
-    elif flat == head + "\nelse:\nbreak":
+    elif flat == head + ";else:;break":
         stops = "true"
     else:
         raise TranslatorError("Storage.clean: not the recognised reverse scan popping expired values")
-    del src
     return expired_cmp, put_cmp, stops
 
 
